@@ -186,7 +186,7 @@ def gen(rng, hazards=()):
             else:
                 val = rng.choice([-5, 0, mx, mx + 10, rng.randint(0, max(1, mx))])
             exact = mx <= 0 or ((max(0, min(val, mx)) * w_eff) % mx == 0)
-            label = rng.choice([None, None, "Load", "L", "progress label"])
+            label = rng.choice([None, None, "Load", "L", "progress label", "Load ", " ", "CPU: ", " x"])
             style = rng.choice([None, "block", "hash", "pipe", "dot"])
             parts = [arg(row), arg(val)]
             if mx != 100 or rng.random() < 0.3:
